@@ -6,8 +6,8 @@ import itertools
 import z3
 
 from vf.pyvc.exec import NameStr
-from vf.pyvc.spec import Spec, as_attr, as_callee
-from vf.pyvc.values import Obj, Opaque, Seq, fresh_fun, fresh_int, zint
+from vf.pyvc.spec import Spec, as_attr, as_callee, contract_fn
+from vf.pyvc.values import Obj, Opaque, Seq, Term, fresh_fun, fresh_int, zint
 from vf.rt.stub import stub_frame
 
 F = "dask_expr/_repartition.py"
@@ -264,3 +264,98 @@ class FewerDivisions(Spec):
 
 
 SPECS = [CleanBoundaries(), FewerBoundaries(), FewerLayer(), FewerDivisions()]
+
+
+# ---------------------------------------------------------------------------------------------------------------------
+# Repartition._lower: which physical repartitioning a request is dispatched to
+# ---------------------------------------------------------------------------------------------------------------------
+class RepartitionLowerDispatch(Spec):
+    """Repartition._lower (the dispatch only; the interpolation of new divisions for frames with KNOWN numeric / datetime
+    divisions - numpy / pandas - is outside the subset and stays with C13's run-time contract):
+      npartitions=k on a frame with n partitions and unknown divisions:  k < n -> RepartitionToFewer(frame, k);  k == n -> the frame
+      itself;  k > n -> RepartitionToMore(frame, k) - the requested count is passed on unchanged;
+      divisions=d:  d equal to the frame's divisions -> the frame itself;  unknown divisions -> ValueError (a request that cannot be
+      honoured is rejected, not silently changed);  otherwise RepartitionDivisions(frame, d, force);
+      partition_size=s -> RepartitionSize(frame, partition_size=s);  no request -> NotImplementedError."""
+
+    file, qualname, props = "dask_expr/_repartition.py", "Repartition._lower", ["C13", "C06"]
+    case = {"request": "npartitions", "known": False}
+    assumptions = ["object model: `type(self)` is Repartition (subclasses return None at once: first statement); frame.divisions has npartitions + 1 entries, all None iff not known_divisions"]
+
+    def cases(self):
+        yield {"request": "npartitions", "known": False}
+        yield {"request": "divisions", "known": True}
+        yield {"request": "divisions", "known": False}
+        yield {"request": "partition_size", "known": False}
+        yield {"request": "none", "known": False}
+
+    def make_inputs(self, ex, sym, fr):
+        from vf.pyvc.values import Ite
+
+        k = self.case
+        n = sym.int("frame_npartitions", lo=1)
+        new = sym.int("new_partitions", lo=1)
+        if k["known"]:
+            divs = sym.seq("frame_divisions", kind="tuple")
+            sym.pc.append(zint(divs.length) == n + 1)
+        else:
+            divs = Seq(n + 1, lambda j: None, "tuple")
+        nd = sym.seq("new_divisions", kind="list", min_len=2) if k["request"] == "divisions" else None
+        frame = Obj("frame", {"npartitions": n, "divisions": divs, "known_divisions": k["known"]}, cls=("Expr",))
+        ps = Opaque("the-partition-size") if k["request"] == "partition_size" else None
+        ops = {"new_partitions": new if k["request"] == "npartitions" else None}
+        me = Obj("self", {"frame": frame, "new_partitions": ops["new_partitions"], "new_divisions": nd, "partition_size": ps, "force": Opaque("self.force"),
+                          "operand": contract_fn(lambda e, f, name: ops[name])}, cls=("Expr", "Repartition"))
+        return {"self": me, "frame": frame, "n": n, "new": new, "nd": nd, "divs": divs}
+
+    def call(self, ex, fr, name, args, kwargs):
+        if name == "builtin:type":
+            return Opaque("Repartition")
+        if name in ("RepartitionToFewer", "RepartitionToMore", "RepartitionDivisions", "RepartitionSize"):
+            return Term(name, args, kwargs)
+        if name == "pd.Series":
+            return Obj("series", {"drop_duplicates": contract_fn(lambda e, f: Obj("deduplicated", {"dtype": Opaque("dtype")}))})
+        return NotImplemented
+
+    def only_raises(self):
+        k = self.case
+        return k["request"] == "none" or (k["request"] == "divisions" and not k["known"])
+
+    def may_raise(self, c, env, exc):
+        k = self.case
+        if exc == "NotImplementedError":
+            return k["request"] == "none"
+        if exc == "ValueError":
+            return k["request"] == "divisions" and not k["known"]
+        return False
+
+    def ensures(self):
+        k = self.case
+
+        def post(c, env, r):
+            if not c.symbolic:
+                return True
+            fr_, n, new = env["frame"], env["n"], env["new"]
+            if k["request"] == "npartitions":
+                if r is fr_:
+                    return new == n
+                if isinstance(r, Term) and r.cls == "RepartitionToFewer":
+                    return c.And(new < n, r.args[0] is fr_, c.eq(r.args[1], new))
+                if isinstance(r, Term) and r.cls == "RepartitionToMore":
+                    return c.And(new > n, r.args[0] is fr_, c.eq(r.args[1], new))
+                return False
+            if k["request"] == "divisions":
+                if r is fr_:
+                    return c.ex.equal(env["nd"], env["divs"], c.fr)
+                return isinstance(r, Term) and r.cls == "RepartitionDivisions" and r.args[0] is fr_ and r.args[1] is env["self"].attrs["new_divisions"] and r.args[2] == Opaque("self.force") and k["known"]
+            if k["request"] == "partition_size":
+                return isinstance(r, Term) and r.cls == "RepartitionSize" and r.args[0] is fr_ and r.kwargs.get("partition_size") == Opaque("the-partition-size")
+            return False
+
+        return {"request-dispatched-unchanged-to-the-matching-algorithm": post}
+
+    def concrete_inputs(self):
+        return []
+
+
+SPECS.append(RepartitionLowerDispatch())
